@@ -28,6 +28,7 @@ import (
 	"context"
 	"encoding/base64"
 	"encoding/json"
+	"errors"
 	"fmt"
 	"runtime"
 	"sort"
@@ -45,6 +46,7 @@ import (
 	"github.com/ory/keto/verif/apih"
 	"github.com/ory/keto/verif/ev"
 	"github.com/ory/keto/verif/refsem"
+	"github.com/ory/keto/verif/sqlfault"
 )
 
 // ---- configurations and stores ------------------------------------------------
@@ -79,18 +81,27 @@ class Doc implements Namespace {
 var c08Known = map[string]bool{"User": true, "Group": true, "Doc": true}
 
 type c08State struct {
-	Cfg   string `json:"config"` // "plain" | "or-only"
-	Store int    `json:"store"`
+	Cfg    string `json:"config"` // "plain" | "or-only"
+	Store  int    `json:"store"`
+	Global int    `json:"limit_max_read_depth,omitempty"` // 0 = 50 (never binding for these stores)
 }
 
-func (s c08State) String() string { return fmt.Sprintf("%s/store%d", s.Cfg, s.Store) }
+func (s c08State) String() string {
+	if s.Global != 0 {
+		return fmt.Sprintf("%s/store%d/global-depth-%d", s.Cfg, s.Store, s.Global)
+	}
+	return fmt.Sprintf("%s/store%d", s.Cfg, s.Store)
+}
 
 func c08States() []c08State {
 	var out []c08State
 	for _, c := range []string{"plain", "or-only"} {
 		for st := 0; st < 3; st++ {
-			out = append(out, c08State{c, st})
+			out = append(out, c08State{Cfg: c, Store: st})
 		}
+		// the chain store under a global limit that BINDS (the chain needs depth 3): every transport must
+		// apply the configured limit, also to a request max-depth above it
+		out = append(out, c08State{Cfg: c, Store: 2, Global: 2})
 	}
 	return out
 }
@@ -146,6 +157,9 @@ func c08Store(n int, thorough bool) []*ketoapi.RelationTuple {
 
 func c08NewServer(t testing.TB, st c08State, thorough bool) *apih.Server {
 	o := apih.Options{Config: map[string]any{"limit.max_read_depth": 50}}
+	if st.Global != 0 {
+		o.Config["limit.max_read_depth"] = st.Global
+	}
 	if st.Cfg == "plain" {
 		o.Namespaces = c08PlainNamespaces()
 	} else {
@@ -171,21 +185,27 @@ func c08NewServer(t testing.TB, st c08State, thorough bool) *apih.Server {
 // ---- max-depth ---------------------------------------------------------------
 
 type c08Depth struct {
-	Name  string `json:"name"`
-	REST  string `json:"rest"` // "" = parameter absent
-	Int   int    `json:"int"`  // the value handed to the engine
-	Valid bool   `json:"valid"`
+	Name     string `json:"name"`
+	REST     string `json:"rest"` // "" = parameter absent
+	Int      int    `json:"int"`  // the value handed to the engine
+	Valid    bool   `json:"valid"`
+	RESTOnly bool   `json:"rest_only,omitempty"` // does not fit the int32 of the gRPC field
 }
 
 func c08Depths() []c08Depth {
 	return []c08Depth{
-		{"absent", "", 0, true},
-		{"0", "0", 0, true},
-		{"1", "1", 1, true},
-		{"2", "2", 2, true},
-		{"-1", "-1", -1, true},
-		{"99999", "99999", 99999, true},
-		{"abc", "abc", 0, false},
+		{"absent", "", 0, true, false},
+		{"0", "0", 0, true, false},
+		{"1", "1", 1, true, false},
+		{"2", "2", 2, true, false},
+		{"-1", "-1", -1, true, false},
+		{"99999", "99999", 99999, true, false},
+		{"abc", "abc", 0, false, false},
+		// (appended: indices above are referred to by position) values outside the int32 range are legal on REST
+		// (the parameter is parsed as a 64-bit integer) and mean what any value above the limit / below 1 means
+		{"2^32+2", "4294967298", 4294967298, true, true},
+		{"-(2^32-2)", "-4294967294", -4294967294, true, true},
+		{"2^31-1", "2147483647", 2147483647, true, false},
 	}
 }
 
@@ -658,8 +678,8 @@ func (r *c08Run) runSingle(s *apih.Server, st c08State, t *ketoapi.RelationTuple
 			if only != "" && tr.Name != only {
 				continue
 			}
-			if !tr.REST && !d.Valid {
-				continue // a gRPC max_depth is an int32: "abc" cannot be sent
+			if !tr.REST && (!d.Valid || d.RESTOnly) {
+				continue // a gRPC max_depth is an int32: "abc" / 2^32+2 cannot be sent
 			}
 			got := tr.Do(c, t, d)
 			r.requests.Add(1)
@@ -730,7 +750,7 @@ func (r *c08Run) judgeBatch(s *apih.Server, st c08State, transport string, lette
 }
 
 func (r *c08Run) runBatch(s *apih.Server, st c08State, transport string, letters []int, d c08Depth, family string) {
-	if transport == "grpc-batch" && !d.Valid {
+	if transport == "grpc-batch" && (!d.Valid || d.RESTOnly) {
 		return
 	}
 	c := s.Client()
@@ -756,7 +776,7 @@ func (r *c08Run) runBatch(s *apih.Server, st c08State, transport string, letters
 
 // runSizes: batches of exactly the configured maximum and of maximum+1.
 func (r *c08Run) runSizes(s *apih.Server, st c08State, transport string, d c08Depth) {
-	if transport == "grpc-batch" && !d.Valid {
+	if transport == "grpc-batch" && (!d.Valid || d.RESTOnly) {
 		return
 	}
 	max := c08MaxBatch(st.Cfg)
@@ -904,9 +924,9 @@ func TestC08(t *testing.T) {
 	queries := c08Queries(thorough)
 	seqs := c08Sequences()
 	depths := c08Depths()
-	batchDepths := []int{0, 2, 3, 6} // absent, 1, 2, abc
+	batchDepths := []int{0, 2, 3, 5, 6, 7} // absent, 1, 2, 99999, abc, 2^32+2
 	if thorough {
-		batchDepths = []int{0, 1, 2, 3, 4, 5, 6}
+		batchDepths = []int{0, 1, 2, 3, 4, 5, 6, 7, 8, 9}
 	}
 	var jobs []c08Job
 	const qChunk, sChunk = 24, 65
@@ -988,7 +1008,7 @@ func TestC08(t *testing.T) {
 		tuples := []*ketoapi.RelationTuple{c08Letter(0), c08Letter(1), c08Letter(4), c08Letter(5), c08Letter(8), c08Letter(9), c08Letter(10)}
 		d0 := depths[0]
 		for si := range states {
-			if si%3 != 1 {
+			if states[si].Store != 1 || states[si].Global != 0 {
 				continue // the states that hold store 1
 			}
 			s := w.server(states, si)
@@ -1019,6 +1039,63 @@ func TestC08(t *testing.T) {
 			}
 		}
 		runtime.GOMAXPROCS(prevProcs)
+	}
+
+	// batch entries under a storage failure: every SQL statement of a batch request fails in turn (generic error
+	// and cancelled query); every entry must then carry an error or be exactly what it is without the failure - a
+	// failure must not come back as a clean decision of the other kind (what the single-check transports answer
+	// with an error for). Batches over the letters allowed-direct / denied / allowed-at-depth-2, both transports.
+	faultRuns := 0
+	if !timedOut.Load() {
+		w := &c08Worker{t: t, thorough: thorough, srv: map[int]*apih.Server{}}
+		d0 := depths[0]
+		for si := range states {
+			if states[si].Store != 1 || states[si].Global != 0 {
+				continue
+			}
+			s := w.server(states, si)
+			c := s.Client()
+			for _, transport := range []string{"rest-batch", "grpc-batch"} {
+				for _, letters := range [][]int{{0}, {5}, {0, 1, 5}, {5, 0}} {
+					s.Settle()
+					s.Tap.ResetCount()
+					base := c08DoBatch(c, transport, letters, d0)
+					s.Settle()
+					n := int(s.Tap.Count())
+					if base.Whole != nil {
+						continue
+					}
+					for k := 1; k <= n; k++ {
+						for _, kerr := range []error{errors.New("verif: injected storage failure"), context.Canceled} {
+							var cnt atomic.Int64
+							s.Tap.SetBefore(func(e *sqlfault.Event) error {
+								if cnt.Add(1) == int64(k) {
+									return kerr
+								}
+								return nil
+							})
+							got := c08DoBatch(c, transport, letters, d0)
+							s.Tap.SetBefore(nil)
+							s.Settle()
+							faultRuns++
+							if got.Whole != nil {
+								continue // the whole request failed: an error
+							}
+							for i := range letters {
+								if i >= len(got.Entries) || i >= len(base.Entries) {
+									break
+								}
+								g, b := got.Entries[i], base.Entries[i]
+								if g.Kind != "error" && g.Kind != b.Kind {
+									run.Violation("batch-entry-storage-failure-reported-as-decision:"+transport, fmt.Sprintf("%s %s on %s with SQL statement %d of %d failing (%v): entry %d (%s) says %s without an error; without the failure it says %s", transport, c08LetterStr(letters), states[si], k, n, kerr, i, c08LetterNames[letters[i]], g, b),
+										map[string]any{"family": "batch-fault", "state": states[si], "transport": transport, "letters": letters, "fail_statement": k, "error": kerr.Error()})
+								}
+							}
+						}
+					}
+				}
+			}
+		}
 	}
 
 	// confirm (2 more runs), minimise batches, report the smallest instance per signature
@@ -1086,6 +1163,7 @@ func TestC08(t *testing.T) {
 		"batch_sequences":      len(seqs),
 		"batch_alphabet":       c08LetterNames,
 		"batch_depths":         len(batchDepths),
+		"batch_fault_runs":     faultRuns,
 		"oracle_kinds":         orc,
 		"jobs":                 len(jobs),
 		"jobs_done":            int(done.Load()),
